@@ -66,6 +66,7 @@ func (w *world) exec(r *hx.Run, op []string) (res string) {
 		if !ok || got != a {
 			return "bad-op"
 		}
+		w.keys[hex.EncodeToString(b)] = true
 		return "ok"
 	case "height":
 		if len(op) != 2 {
@@ -100,7 +101,7 @@ func (w *world) exec(r *hx.Run, op []string) (res string) {
 			}
 			idx, ok1 := u64(f[0])
 			a, ok2 := parseAddr(f[2])
-			if !ok1 || !ok2 {
+			if !ok1 || !ok2 || !w.keyKnown(f[1]) {
 				return "bad-op"
 			}
 			cfg.Peers = append(cfg.Peers, &config.VBFTPeerInfo{Index: uint32(idx), PeerPubkey: strTok(f[1]), Address: a.ToBase58()})
@@ -116,7 +117,7 @@ func (w *world) exec(r *hx.Run, op []string) (res string) {
 		}
 		signers, ok1 := parseSigners(op[1])
 		a, ok2 := parseAddr(op[3])
-		if !ok1 || !ok2 {
+		if !ok1 || !ok2 || !w.keyKnown(op[2]) {
 			return "bad-op"
 		}
 		sink := common.NewZeroCopySink(nil)
@@ -135,6 +136,9 @@ func (w *world) exec(r *hx.Run, op []string) (res string) {
 		}
 		p := &node_manager.PeerListParam{Address: a}
 		for _, k := range op[3:] {
+			if !w.keyKnown(k) {
+				return "bad-op"
+			}
 			p.PeerPubkeyList = append(p.PeerPubkeyList, strTok(k))
 		}
 		sink := common.NewZeroCopySink(nil)
